@@ -2,6 +2,7 @@
 use crate::engine::Prop;
 
 pub mod common;
+pub mod scale;
 pub mod c01;
 pub mod c02;
 pub mod c03;
